@@ -170,6 +170,7 @@ SRC_TIE = {
     "C01": " Shortest inputs (C01Short): for EVERY sequence of at most five residues delta = 0, delta-max = 0 and kappa = -1. Source-text tie (C01Src): Sequence.kappa's zero guard / reporting band and Sequence.sigma, translated from the live source on every run, equal kappaOf / sigmaOf for all arguments.",
     "C02": " Source-text tie (C02Src): the body of deltaForm's loop over blobs and Sequence.delta, translated from the live source on every run, are the model's summand (sigma - sigma_blob)^2/nblobs and (deltaForm 5 + deltaForm 6)/2 for all arguments.",
     "C04": " Source-text tie (C04Src): the no-pH forms of Fplus, Fminus, FCR, NCPR, FER, mean_net_charge translated from the live source equal the model's fractions, and FCR = f+ + f-, NCPR = f+ - f-, |NCPR| <= FCR <= 1 hold of the source text for all counts.",
+    "C06": " Source-text tie (C06Src): the per-residue recoding decisions inside the loops of Sequence.Omega, Omega_seq and both arms of kappa_X, translated from the live source on every run, are the model's recodings (letters and charge classes) for EVERY residue / group membership, lifted to whole sequences; the loop frames (empty start, kappa() of a fresh Sequence on the recoded string) are what the model assumes.",
     "C08": " Source-text tie (C08Src): Sequence.phasePlotRegion translated from the live source equals regionCode for all rational arguments.",
     "C09": " Source-text tie (C09Src): __verify_pH translated from the live source rejects exactly pH < 0 or pH > 14.",
     "C10": " Source-text tie (C10Src): the integer bookkeeping (nblobs, flank, flank_start, flank_end) at the head of each of the SIX sliding-window functions, translated from the live source, equals the model's flanks / window count for every legal window - each copy separately.",
